@@ -597,7 +597,7 @@ var heapDocs = []string{
 	`7`, `"x"`, `null`, `{}`, `[]`, `{"a":1,"a":2}`, ` [ 10 , 20 , 30 ] `, `{"x":[{"y":[1]}]}`, `[1e400]`, `{"":0,"'":1,"\\":2}`,
 }
 
-var heapKeys = []string{"a", "b", "k", "", "x", "0", "1", "'", "\\", "a'b", "é", "\x01", "length", "k.k", "[0]"}
+var heapKeys = []string{"a", "b", "k", "", "x", "0", "1", "'", "\\", "a'b", "é", "\x01", "length", "k.k", "[0]", "\x1b", "\x10\x1f", "t\tb"}
 
 var heapFloats = []uint64{
 	0x0000000000000000, 0x8000000000000000, 0x3FF0000000000000, 0x4000000000000000, 0xBFF8000000000000, 0x4059000000000000,
@@ -1110,7 +1110,18 @@ func variantOf(r *Rng, v interface{}, mutate *bool) string {
 	case float64:
 		if *mutate && r.Chance(30) {
 			*mutate = false
-			t = t + 1
+			switch r.Intn(3) {
+			case 0:
+				t = t + 1
+			case 1: // the neighbouring float64: equality is exact, not "close enough"
+				t = math.Float64frombits(math.Float64bits(t) + 1)
+			default: // differs far below any tolerance one might be tempted to allow
+				if t == 0 {
+					t = 1e-300
+				} else {
+					t = t * (1 + 1e-12)
+				}
+			}
 		}
 		switch r.Intn(3) {
 		case 0:
